@@ -109,7 +109,7 @@ fn build(c: &Case, values: &[Vec<u8>]) -> std::io::Result<Vec<u8>> {
     let proto = bld::protocol_of(c.proto);
     let fam = family_of(enc::family_code(&c.addr));
     let addr = imp::mk_addr2(&c.addr);
-    match c.route % 5 {
+    match c.route % 7 {
         0 => {
             // with_addresses + write_tlv
             let mut b = Builder::with_addresses(Version::Two | cmd, proto, addr);
@@ -157,6 +157,24 @@ fn build(c: &Case, values: &[Vec<u8>]) -> std::io::Result<Vec<u8>> {
                 .collect();
             Builder::new(Version::Two | cmd, proto | fam).write_payload(&addr)?.write_payloads(items)?.build()
         }
+        5 => {
+            // nothing but one batch after with_addresses
+            let items: Vec<TypeLengthValue> = c
+                .tlvs
+                .iter()
+                .zip(values)
+                .map(|(t, v)| match t.named {
+                    Some(i) => TypeLengthValue::new(TYPES[i], v),
+                    None => TypeLengthValue::new(t.kind, v),
+                })
+                .collect();
+            Builder::with_addresses(Version::Two | cmd, proto, addr).write_payloads(items.iter())?.build()
+        }
+        6 => {
+            // new + two batches (addresses, then tuples), capacity reserved in between
+            let items: Vec<(u8, &[u8])> = c.tlvs.iter().zip(values).map(|(t, v)| (t.named.map(|i| u8::from(TYPES[i])).unwrap_or(t.kind), v.as_slice())).collect();
+            Builder::new(cmd | Version::Two, proto | fam).write_payloads([addr])?.reserve_capacity(100).write_payloads(items)?.build()
+        }
         _ => {
             // batch of tuples, explicit (correct) length set up front
             let total: usize = NEED[enc::family_code(&c.addr) as usize] + c.tlvs.iter().map(|t| 3 + t.len).sum::<usize>();
@@ -203,7 +221,7 @@ pub fn judge(c: &Case, st: &mut Stats) -> Verdict {
     if c.tlvs.iter().any(|t| t.named.is_some()) {
         st.class("named-type");
     }
-    st.class(&format!("route{}", c.route % 5));
+    st.class(&format!("route{}", c.route % 7));
     st.sample(&cls, || imp::short(&c.to_json().to_string()));
     let fail = |kind: &str, exp: String, obs: String| Err(Fail::new(kind, shape(c), entry, exp, obs));
     let built = match crate::engine::guard(|| build(c, &values)) {
@@ -275,13 +293,13 @@ pub fn gen_case(t: &mut Tape) -> Case {
         room -= 3 + len;
         tlvs.push(Tlv { named, kind: t.byte(), len, seed: t.u32() | 1 });
     }
-    Case { cmd: t.below(2) as u8, proto: t.below(3) as u8, addr, tlvs, route: t.below(5) as u8 }
+    Case { cmd: t.below(2) as u8, proto: t.below(3) as u8, addr, tlvs, route: t.below(7) as u8 }
 }
 
 pub fn run(r: &mut Runner) -> &'static str {
     r.rule = "inputs: command x transport x address block of each family (random + special values) x TLV list (raw kind bytes and every named Type; value lengths 0..4, ..60, 255-257, 1000, 4096, 30000, \
-              up to the room left; 1 in 40 lists fills the payload to exactly 65535) x 5 public build routes (with_addresses+write_tlv, new+BitOr control bytes+TLV structs, tuples, batch of structs, \
-              batch of tuples with explicit length). oracle: reference encoder R-ENC byte for byte (registered type codes as literals), then parse-back: same command, transport, addresses, bytes and, \
+              up to the room left; 1 in 40 lists fills the payload to exactly 65535) x 7 public build routes (with_addresses+write_tlv, new+BitOr control bytes+TLV structs, tuples, batch of structs, \
+              batch of tuples with explicit length, with_addresses + one batch only, new + two batches). oracle: reference encoder R-ENC byte for byte (registered type codes as literals), then parse-back: same command, transport, addresses, bytes and, \
               for a specified family, the same TLV sequence. non-trivial = at least one TLV or a specified family; distinct by SipHash"
         .into();
     let n = r.n(100_000, 3_000_000);
